@@ -1,5 +1,7 @@
 package specgen
 
+import "strings"
+
 // FamilyCases returns the purpose-built run-time families (router,
 // parameter, schema, response, security, cors, kitchen sinks) as generator
 // inputs for the stage-G properties that want a broad corpus (C01, C12,
@@ -58,6 +60,84 @@ func ExtraCases() []Case {
 		d.Comp("headers", "H", M{"schema": Arr(Prim("string", ""))})
 		d.Op("/t", "get", M{"responses": M{"200": M{"description": "ok", "headers": M{"X-List": Ref("headers", "H")}}}})
 		add("array-typed-component-header", d, Flags{DoNotEdit: true})
+	}
+	for _, pc := range []struct{ id, path string }{
+		{"root-path", "/"}, {"trailing-slash-path", "/t/"}, {"variable-last", "/t/{pid}"}, {"variable-then-slash", "/t/{pid}/"}, {"dash-dot-underscore-path", "/t-a/b_c.d"},
+	} {
+		// no operationId + a shared component response: the operation name is
+		// derived from the path at two code sites that must agree
+		d := NewDoc("x")
+		d.Comp("responses", "Err", Resp("err", Obj(nil, M{"a": Prim("string", "")})))
+		op := M{"responses": M{"200": M{"description": "ok"}, "default": Ref("responses", "Err")}}
+		if strings.Contains(pc.path, "{pid}") {
+			op["parameters"] = L{ParamNode("pid", "path", true, Prim("string", ""))}
+		}
+		d.Op(pc.path, "get", op)
+		out = append(out, Case{ID: "X=shared-response-no-operation-id-" + pc.id, Family: "extra", Spec: d.Root, Flags: Flags{Client: true}, Safe: true, Label: map[string]string{"X": "shared-response-" + pc.id}})
+	}
+	{
+		// a shared response and an alias of it under two statuses of one
+		// operation, and the same component twice: goag refuses both today
+		// ("used several times"); whatever it does, success must compile
+		for _, v := range []struct {
+			id     string
+			second string
+		}{{"alias-and-target-response-in-one-operation", "NotFound"}, {"same-response-twice-in-one-operation", "BadRequest"}, {"alias-of-alias-and-target-response-in-one-operation", "Gone"}} {
+			d := NewDoc("x")
+			d.Comp("responses", "BadRequest", Resp("bad", Obj(nil, M{"a": Prim("string", "")})))
+			d.Comp("responses", "NotFound", Ref("responses", "BadRequest"))
+			d.Comp("responses", "Gone", Ref("responses", "NotFound"))
+			d.Op("/t", "get", M{"responses": M{"200": M{"description": "ok"}, "400": Ref("responses", "BadRequest"), "404": Ref("responses", v.second)}})
+			d.Op("/u", "get", M{"responses": M{"200": M{"description": "ok"}, "404": Ref("responses", "NotFound")}})
+			out = append(out, Case{ID: "X=" + v.id, Family: "extra", Spec: d.Root, Flags: Flags{Client: true}, Label: map[string]string{"X": v.id}})
+		}
+	}
+	{
+		// components no operation refers to are still rendered
+		mk := func(id string, fill func(d *Doc)) {
+			for _, cl := range []bool{false, true} {
+				d := NewDoc("x")
+				fill(d)
+				d.Op("/health", "get", M{"responses": M{"204": M{"description": "no content"}}})
+				cid := "X=unreferenced-" + id
+				if cl {
+					cid += "-client"
+				}
+				out = append(out, Case{ID: cid, Family: "extra", Spec: d.Root, Flags: Flags{Client: cl, DoNotEdit: true}, Safe: true, Label: map[string]string{"X": "unreferenced-" + id}})
+			}
+		}
+		mk("json-response", func(d *Doc) {
+			d.Comp("responses", "Error", Resp("err", Obj([]string{"code"}, M{"code": Prim("integer", "int32"), "msg": Prim("string", "")})))
+		})
+		mk("json-response-ref-schema", func(d *Doc) {
+			d.Comp("schemas", "Err", Obj([]string{"code"}, M{"code": Prim("integer", "int32")}))
+			d.Comp("responses", "Error", Resp("err", Ref("schemas", "Err")))
+		})
+		mk("raw-response", func(d *Doc) {
+			d.Comp("responses", "Blob", M{"description": "blob", "content": M{"application/octet-stream": M{"schema": M{"type": "string", "format": "binary"}}}})
+		})
+		mk("header-response", func(d *Doc) {
+			d.Comp("responses", "Moved", M{"description": "moved", "headers": M{"Location": M{"required": true, "schema": Prim("string", "")}}})
+		})
+		mk("schema-object", func(d *Doc) {
+			d.Comp("schemas", "Lonely", Obj([]string{"a"}, M{"a": Prim("string", ""), "t": Prim("string", "date-time"), "m": M{"type": "object", "additionalProperties": Prim("integer", "int64")}}))
+		})
+		mk("schema-oneof", func(d *Doc) {
+			d.Comp("schemas", "Cat", Obj([]string{"kind"}, M{"kind": Prim("string", "")}))
+			d.Comp("schemas", "Dog", Obj([]string{"kind"}, M{"kind": Prim("string", "")}))
+			d.Comp("schemas", "Pet", M{"oneOf": L{Ref("schemas", "Cat"), Ref("schemas", "Dog")}, "discriminator": M{"propertyName": "kind"}})
+		})
+		mk("parameters", func(d *Doc) {
+			d.Comp("parameters", "Limit", ParamNode("limit", "query", false, Prim("integer", "int32")))
+			d.Comp("parameters", "Trace", ParamNode("X-Trace", "header", true, Prim("string", "")))
+			d.Comp("parameters", "When", ParamNode("when", "query", false, Prim("string", "date-time")))
+		})
+		mk("request-body", func(d *Doc) {
+			d.Comp("requestBodies", "Thing", M{"required": true, "content": JSONContent(Obj(nil, M{"a": Prim("string", "")}))})
+		})
+		mk("header", func(d *Doc) {
+			d.Comp("headers", "Rate", M{"schema": Prim("integer", "int64")})
+		})
 	}
 	return out
 }
